@@ -114,6 +114,8 @@ type CallPlan struct {
 	TimeoutString string // C10: header string under test and its class
 	TimeoutClass  string
 
+	Canned *simhttp.Canned // if set: HTTPClient.Do answers with this response instead of running a handler
+
 	Raw *RawReq // if set: no connect client; a crafted HTTP request is served directly
 
 	Task int // client task group (calls with the same Task run sequentially in one task)
